@@ -1,5 +1,8 @@
 """C10 - fail-stop: complete finite results or an exception, never a hang.
 
+Fifth round (`float_step_loop`; helpers in harness/v2_util.py): the real step loop in doubles for all 45 accepted time
+steps x window lengths up to a year (loop bound surveyed for all 45 x 366 pairs) - a normal return holds every record.
+
 Fourth round (`circumstances`; helpers in harness/u2_util.py): fail-stop at the boundary an operator sees - the exit
 status of `uwg simulate param|model` for every class of refusal the library makes - and under `python -O`, observers,
 DEBUG logging, other models of the process, a refused dictionary used twice."""
@@ -942,6 +945,58 @@ def circumstances(chk, uwg, work, rows):
                mismatches=nbad, branches=br)
 
 
+# ----------------------------------------------------------------------------------------------------------
+# Fifth round: float-only effects of the step loop. `records_complete_on_return` is proved over exact arithmetic; the
+# real loop bound, the clock and the record test are computed in doubles, where dt/3600 is not representable for 40 of
+# the 45 accepted time steps and quotients such as 24*days/(dt/3600.) land one ulp beside an integer for particular
+# (dt, days). The toy-physics ties above run dt >= 60 and windows of 1-3 days only.
+def float_step_loop(chk, uwg):
+    import multiprocessing
+    import v2_util as V
+    quick = chk.tier == 'quick'
+    suspects, nsurvey = V.float_step_survey(uwg)
+    plan = V.float_step_plan(chk.rng, quick, suspects)
+    short = V.float_step_shortcut_ok(uwg, [(300, 1), (48, 2)] + ([] if quick else [(3600, 365), (3, 1), (225, 9)]))
+    if short:
+        # the tree under test builds its clock differently: every window gets its own really generated model (slow
+        # path: the one-day windows, the suspects and the windows of at most 20 000 steps)
+        chk.notes.append('float-step tie: generate() does not build the clock as SimParam(dtsim, dtweather, month, day, nday) '
+                         '(%s); every window was run on its own generated model' % short)
+        plan = [p_ for p_ in plan if p_[1] == 1 or p_[2].startswith('suspect') or 86400 * p_[1] // p_[0] <= 20000][:120]
+    nw = 4 if quick else 12
+    # (longest windows first, dealt round robin: even load)
+    order = sorted(plan, key=lambda p_: -86400 * p_[1] // p_[0])
+    with multiprocessing.Pool(nw) as pool:
+        outs = pool.map(V.float_step_job, [(core.REPO, order[i::nw], bool(short)) for i in range(nw)], chunksize=1)
+    res = [r for o in outs for r in o]
+    bad, br = 0, {}
+    for dt, days, why, outcome, msg in sorted(res, key=lambda r: 86400 * r[1] // r[0]):
+        br[outcome] = br.get(outcome, 0) + 1
+        if msg:
+            bad += 1
+            if bad <= 3:
+                chk.violation('impl-violation', 'normal return of simulate() with partial records (real float step loop)',
+                              case={'dtsim': dt, 'nday': days, 'month': 1, 'day': 1, 'rural_file': U.EPW_SGP,
+                                    'steps_needed': 86400 * days // dt, 'why_this_member': why,
+                                    'physics': 'stubbed (no-ops); loop, clock and record test as shipped'},
+                              observed=msg, expected='all %d hourly records in WeatherData, UCMData, UBLData and RSMData' % (24 * days))
+    steps = sum(86400 * d // dt for dt, d, _ in plan)
+    chk.direct('float-step-loop(all 45 divisors x window lengths; real doubles)', len(res) + nsurvey, len(res),
+               'the REAL step loop of simulate() in doubles (physics stubbed to no-ops, empty building list; the model is '
+               'generated once for 1 January + 365 days of the Singapore file and the clock of each member is built by the '
+               'real SimParam(dtsim, dtweather, month, day, nday) as _compute_input does - checked against really generated '
+               'models) for: every one of the 45 accepted time steps x 1 day; every time step with the longest window of the '
+               'strata {1..5, 7..10, 16..21, 32..42, 63..85, 148..170, 296..341, 365, 366} it can afford and random further '
+               '(dt, length) pairs of the strata (%d windows, %d steps, dt 1 .. 3600, up to %d days in this run); beforehand the '
+               'loop bound `nt` of SimParam is surveyed WITHOUT stepping for all 45 x 366 (dt, nday) pairs against '
+               '86400*nday/dt + 1 and the cheapest pairs that deviate are stepped as well (%d deviating pairs in this run). '
+               'Verdict: whenever simulate() returns, model.N = 24*nday and none of the 24*nday slots of the four record '
+               'lists is empty' % (len(res), steps, max(d for _, d, _ in plan), len(suspects)),
+               mismatches=bad, branches=br)
+    chk.measurements['float_step_loop'] = {'windows': len(res), 'steps': steps, 'loop_bound_pairs_surveyed': nsurvey,
+                                           'loop_bound_deviations': len(suspects)}
+
+
 def run(chk):
     chk.proof(MODULE, THEOREMS, extra_modules=['UwgVerif.Props.C06'])
     if chk.tier == 'thorough':
@@ -1152,6 +1207,7 @@ def run(chk):
     accepted_schedule_sets(chk, uwg, work)
     changed_after_generate(chk, work)
     write_after_failure(chk, work)
+    float_step_loop(chk, uwg)
     circumstances(chk, uwg, work, rows)
     chk.assumptions.append('non-finite values: `canTemp > 350 or canTemp < 200` is false for NaN, so a NaN would pass '
                            'the code\'s own check - outside the exact model; the scan of every record and written field '
